@@ -73,6 +73,7 @@ ReqInit(c) ==
     reading  |-> FALSE,        \* listener is inside ReadFrom
     nTO      |-> 0,            \* consecutive receive timeouts
     resumeAt |-> -1,           \* next ReadFrom must be issued exactly then (back-off)
+    tgate    |-> FALSE,        \* the driver holds the terminator's mutex (a signal is being delivered under Serve)
     invSrcs  |-> {},           \* sources of messages that failed validation (C09: they are owed nothing)
     nRA      |-> 0,            \* valid RAs received
     nHook    |-> 0,            \* consistency reports made
@@ -305,6 +306,12 @@ OnRet(m, e) ==
                  THEN Flag(m, "c08-final-ra-missing-or-not-last")
             ELSE m
   IN [m1 EXCEPT !.retAt = e.t]
+
+\* Under the real Server.Serve: while the driver holds the terminator's mutex the signal kind cannot have been
+\* recorded, so no task may already be asking for it (C08: the final RA depends on the answer; C20: the ordering).
+OnTGate(m, e)   == [m EXCEPT !.tgate = e.held]
+OnTermAsk(m, e) == IF m.tgate THEN Flag(m, "c08-c20-terminate-asked-before-the-signal-kind-was-recorded") ELSE m
+OnSRet(m, e)    == IF m.retAt = -1 THEN Flag(m, "c20-serve-returned-before-every-task") ELSE m
 
 OnLeak(m, e)  == Flag(m, "c08-c10-goroutine-leak")
 OnHang(m, e)  == Flag(m, "c08-c10-run-did-not-return")
